@@ -18,6 +18,7 @@ association list with distinct keys.  Panics are values.
 Core-only: this file is linked into the `oracle` driver.
 -/
 import OnosVerif.Generated.Facts
+import OnosVerif.Base.ExceptEq
 import OnosVerif.ErrTable.Types
 
 namespace OnosVerif.Rbac
@@ -71,13 +72,6 @@ def equalFold (a b : Str) : Bool := toLower a == toLower b
 inductive Panic
   | indexOutOfRange
 deriving DecidableEq, Repr
-
-instance {ε α : Type} [DecidableEq ε] [DecidableEq α] : DecidableEq (Except ε α) := fun a b =>
-  match a, b with
-  | .ok x, .ok y => if h : x = y then isTrue (h ▸ rfl) else isFalse (fun h' => h (Except.ok.inj h'))
-  | .error x, .error y => if h : x = y then isTrue (h ▸ rfl) else isFalse (fun h' => h (Except.error.inj h'))
-  | .ok _, .error _ => isFalse (fun h => by cases h)
-  | .error _, .ok _ => isFalse (fun h => by cases h)
 
 /-- `metadata.MD` / `metautils.NiceMD`: key ↦ values. -/
 abbrev MD := List (Str × List Str)
